@@ -10,8 +10,9 @@ GO=go1.26.8
 command -v $GO >/dev/null 2>&1 || GO=/opt/veriftools/go1.26.8/bin/go
 WORK="$(dirname "$OUT")/devwork-$(echo "$REPO" | md5sum | cut -c1-8)"
 mkdir -p "$WORK"
-sed "s#=> /repo#=> $REPO#" "$VERIF/harness/go.mod" > "$WORK/go.mod"
-[ -f "$WORK/bbolt/go.mod" ] && echo "replace go.etcd.io/bbolt => $WORK/bbolt" >> "$WORK/go.mod"
-cp "$VERIF/harness/go.sum" "$WORK/go.sum"
 "$VERIF/tools/run-instrument.sh" "$REPO" "$WORK" > "$WORK/instrument.log" 2>&1 || { cat "$WORK/instrument.log"; exit 2; }
+[ -f "$WORK/bbolt/go.mod" ] || { echo "instrumented bbolt copy missing"; exit 2; }
+sed "s#=> /repo#=> $REPO#" "$VERIF/harness/go.mod" > "$WORK/go.mod"
+echo "replace go.etcd.io/bbolt => $WORK/bbolt" >> "$WORK/go.mod"
+cp "$VERIF/harness/go.sum" "$WORK/go.sum"
 cd "$VERIF/harness" && $GO test -c -modfile="$WORK/go.mod" -overlay "$WORK/overlay.json" -o "$OUT" "$PKG"
